@@ -374,10 +374,10 @@ def node_spec(g, x):
     if isinstance(x, g.Symbol):
         return ("Y", x.uuid.int, x.name, bool(x.at_end), x.value, node_spec(g, x.referent))
     if isinstance(x, g.SymAddrConst):
-        return ("AC", x.offset, node_spec(g, x.symbol), tuple(sorted(int(a) if isinstance(a, int) else a.value for a in x.attributes)))
+        return ("AC", x.offset, node_spec(g, x.symbol), tuple(sorted({int(a) if isinstance(a, int) else a.value for a in x.attributes})))
     if isinstance(x, g.SymAddrAddr):
         return ("AA", x.scale, x.offset, node_spec(g, x.symbol1), node_spec(g, x.symbol2),
-                tuple(sorted(int(a) if isinstance(a, int) else a.value for a in x.attributes)))
+                tuple(sorted({int(a) if isinstance(a, int) else a.value for a in x.attributes})))
     if isinstance(x, g.ByteInterval):
         return ("BI", x.uuid.int, x.address, bytes(x.contents), x.size,
                 tuple(sorted((node_spec(g, b) for b in x.blocks), key=lambda t: t[1])),
